@@ -734,7 +734,12 @@ def _pass(plan, root, faults, observe_only):
                     exc["caught_by"] = "sphinx_build"
                 else:
                     outputs = r[1]
-                    bad = [d for d, o in outputs.items() if o is None or o.startswith("<no resolved doctree")]
+                    rerr = (r[3] or {}).get("resolve_errors") or {}
+                    bad = [d for d, o in outputs.items() if (o is None or o.startswith("<no resolved doctree"))
+                           and not (rerr.get(d) or {}).get("in_writer")]  # (upstream toctree adapter: out of scope)
+                    for d, x in rerr.items():
+                        if x.get("in_writer"):
+                            writer_exc = f"{x['type']}@{x['raise_frame']}"
                     if bad:
                         doc_ok, doc_detail = False, {d: outputs[d] for d in bad[:3]}
                 msgs += r[2] if isinstance(r[2], list) else []
